@@ -605,20 +605,15 @@ class C02(Check):
                 self.violated("R7", MOD, q, f"sorted:{need}", union_txt,
                               f"{need} is not handed to the sorter: its members are never ordered/evaluated",
                               witness="a derived quantity depending on a member of that class sees a missing name")
-        # initial assignments of variables and of parameters
-        ia = [p for p in parts if isinstance(p, ast.Name)]
+        # initial assignments of variables and of parameters: a union member that collects exactly the assignment-valued entries
+        from ..blocks import partition_summary
+
+        ps = partition_summary(cc)
         ia_ok = {"_variables": False, "_parameters": False}
-        for nm in ia:
-            for s in cc.body:
-                if isinstance(s, (ast.Assign, ast.AnnAssign)) and isinstance(getattr(s, "target", None) or s.targets[0], ast.Name) \
-                        and (getattr(s, "target", None) or s.targets[0]).id == nm.id and s.value is not None:
-                    for d in ast.walk(s.value):
-                        if isinstance(d, ast.DictComp):
-                            it = norm(d.generators[0].iter)
-                            tests = " ".join(norm(i) for i in d.generators[0].ifs)
-                            for fld in ia_ok:
-                                if f"self.{fld}" in it and "isinstance" in tests and "InitialAssignment" in tests and "not isinstance" not in tests:
-                                    ia_ok[fld] = True
+        for nm in [p for p in parts if isinstance(p, ast.Name)]:
+            for cont, attr, is_ia in ps.get(nm.id, ()):
+                if is_ia and cont in ia_ok:
+                    ia_ok[cont] = True
         for fld, ok in ia_ok.items():
             if ok:
                 self.holds("R7", MOD, q, f"sorted:initial-assignments-of{fld}", union_txt, "initial assignments are handed to the sorter")
